@@ -711,7 +711,9 @@ carquet_status_t carquet_writer_close(carquet_writer_t* writer) {
     }
 
     /* Flush and close */
-    fflush(writer->file);
+    if (fflush(writer->file) != 0) {
+        status = CARQUET_ERROR_FILE_WRITE;
+    }
 
 cleanup:
     /* Free resources */
@@ -721,7 +723,10 @@ cleanup:
     }
 
     if (writer->owns_file && writer->file) {
-        fclose(writer->file);
+        /* fclose flushes what is still buffered: its failure means lost bytes */
+        if (fclose(writer->file) != 0 && status == CARQUET_OK) {
+            status = CARQUET_ERROR_FILE_WRITE;
+        }
         writer->file = NULL;
     }
 
